@@ -22,7 +22,7 @@ RULE = (
     "uses. Sub-check 'template' (cheap, 3/4 of the cases): the template returned by lcm must have exactly the keys "
     "beta + every function name (+ shocks iff a stochastic state exists); per function exactly the arguments that "
     "are neither variables, function names nor _period; shocks[state].shape = sizes of the dependencies in "
-    "signature order (n_periods for _period) + number of labels; every leaf NaN. Sub-check 'routing': the template "
+    "signature order (n_periods for _period) + number of labels; every leaf NaN; the same Model object is processed twice and both templates must satisfy this. Sub-check 'routing': the template "
     "is filled BY PATH from the spec's params, the model is solved (and simulated) and compared with the NumPy "
     "reference, which looks parameters up under the function's own name (1e-9) - with colliding names and distinct "
     "values any cross-talk changes V by O(1); changing the parameter of an orphan function must change nothing. "
@@ -143,6 +143,10 @@ def check(case):
         model = to_lcm_model(spec)
         tmpl = call_lcm(process_model, model).params
         msgs = check_template(spec, tmpl)
+        if not msgs:
+            # the same Model object processed a second time must give the same template
+            tmpl2 = call_lcm(process_model, model).params
+            msgs = [f"second processing of the same Model object: {m}" for m in check_template(spec, tmpl2)]
         _, shocks = expected_template(spec)
         nt = coll or any(len(s) >= 3 for s in shocks.values())
         out = Outcome(digest=dg, classes=cl + (["stochastic"] if shocks else []), nontrivial=nt)
